@@ -115,3 +115,20 @@ func collide(key []byte, lane int, newA0 uint64) []byte {
 
 	return out
 }
+
+// sameShardPool holds keys that live in the same one of the library's 128 shards as "a"
+// (shard = xxhash64 % 128 in the current code; if that ever changes the keys are merely ordinary).
+var sameShardPool = func() [][]byte {
+	want := xxhash.Sum64([]byte("a")) % 128
+
+	var out [][]byte
+
+	for i := 0; len(out) < 420; i++ {
+		k := []byte(fmt.Sprintf("m%06d", i))
+		if xxhash.Sum64(k)%128 == want {
+			out = append(out, k)
+		}
+	}
+
+	return out
+}()
